@@ -80,18 +80,22 @@ PROPS = {
              'reachable remain" = this + lemma L-REACH (Lean). swap is outside the generator: bounded stand-in (exact ledger, wf(), '
              'computed-table validity, denotations after every step of random and enumerated histories).',
              bounded=['vlib.rtc.c06'], tb=['swap: bounded only', 'BDD.__del__ (generator expression): bounded only'], design_ref='DESIGN.md 7/C06'),
-    'C07': P('exploration',
+    'C07': P('other',
              'BDD.swap rewrites two levels in place through temporarily inconsistent tables (seven loops over dict views, the unique '
-             'table and the counts are wrong in between): its body is outside the VC generator and so are sifting, _sort_to_order and '
-             'reorder_to_pairs, which rest on it. Proved (small): the helpers _low_high and _swap_cofactor return what the node table '
-             'stores, and the argument validation of swap (a prefix contract: ValueError with nothing modified iff the arguments are '
-             'not two adjacent levels / declared names at adjacent levels; otherwise the body is entered with x < y = x + 1). The '
-             'property itself is stated as observed contracts of swap and reorder in the language of the model (every externally referenced '
-             'node survives with its number, its external count and its function of the variables - ghost sem2 under the assignment '
-             're-indexed by the new order -, the order is exchanged / as requested / not larger after sifting, WF holds) which z3 evaluates on '
-             'real executions (vlib/vc/contracts_reorder.py, cross-check), and is decided by run-time contracts: every function of 3 variables and sampled sets over 4-6 variables under '
-             'every adjacent swap, sifting, reorder-to-order, reorder_to_pairs, reordering off and on, 8 hash seeds (thorough).',
-             bounded=['vlib.rtc.c07'], tb=['swap body, reorder, _sort_to_order, _reorder_var, reorder_to_pairs: bounded only'],
+             'table and the counts are wrong in between): its body is outside the VC generator, and so is sifting, whose assertions '
+             'rest on sizes being reproducible. Proved against the ASSUMED order effect of swap (the two levels exchange their variables, '
+             'nothing else moves): _sort_to_order leaves the levels sorted by the requested positions (bubble sort: two nested loop '
+             'invariants; with the positions a permutation of 0..n-1 sorted means equal - pigeonhole, not derived), reorder(bdd, order) '
+             'delegates to it, _shift moves one variable and shifts the ones in between by one, reorder_to_pairs makes every requested '
+             'pair adjacent when the names in the pairs are distinct; the helpers _low_high / _swap_cofactor return what the node table '
+             'stores; the argument validation of swap (prefix contract). What swap and reorder do to the functions (every externally '
+             'referenced node survives with its number, count and function of the variables; WF afterwards; sifting does not grow the table) '
+             'is stated as observed contracts in the language of the model and evaluated by z3 on real executions '
+             '(vlib/vc/contracts_reorder.py, cross-check), and decided by run-time contracts: every function of 3 variables and sampled '
+             'sets over 4-6 variables under every adjacent swap, sifting, reorder-to-order, reorder_to_pairs, reordering off and on, '
+             '8 hash seeds (thorough).',
+             bounded=['vlib.rtc.c07'], tb=['swap body (order effect ASSUMED for the callers above; denotations bounded / observed)',
+                                           '_apply_sifting, _reorder_var: bounded only'],
              design_ref='DESIGN.md 7/C07'),
     'C08': P('other',
              'Proved (per-operation ledger over the ghost external count of the wrapped manager): Function.__init__ takes exactly one '
